@@ -24,8 +24,8 @@ NameOrder == Hdr.names
 
 INSTANCE Array
 
-VARIABLES l, fs, C, par, diag, clean, snap, dmg
-vars == <<l, fs, C, par, diag, clean, snap, dmg>>
+VARIABLES l, fs, C, par, diag, clean, snap, dmg, ghost, sha, pviol, afterfix
+vars == <<l, fs, C, par, diag, clean, snap, dmg, ghost, sha, pviol, afterfix>>
 
 (* ---- conversion of logged state ---- *)
 LoggedC(s) == [cf |-> s.cf, del |-> s.del, info |-> s.info]
@@ -55,6 +55,8 @@ SameFile(f, g) == f.sz = g.sz /\ f.mt = g.mt /\ Len(f.b) = Len(g.b) /\ \A i \in 
 SameFs(a, b) == \A d \in D : DOMAIN a[d] = DOMAIN b[d] /\ \A n \in DOMAIN a[d] : IsUnrec(n) \/ SameFile(a[d][n], b[d][n])
 
 ToSet(s) == {s[i] : i \in 1..Len(s)}
+PairSet(s) == {<<s[i][1], s[i][2]>> : i \in 1..Len(s)}
+PresentOf(a) == ToSet(a.present)
 
 (* differences between a predicted and an observed content state, for the diagnosis *)
 DiffC(p, o) ==
@@ -67,6 +69,122 @@ DiffC(p, o) ==
 (* ---- properties on real states ---- *)
 CleanSynced(c, f) == ~ParityInvalid(c) /\ NoDifference(c, f)
 
+
+(***************************************************************************)
+(* Properties evaluated on the real (projected) states and steps.          *)
+(* pviol collects <<property id, signature, details>> for the last step.   *)
+(***************************************************************************)
+AllFiles(c) == UNION {{<<d, n>> : n \in DOMAIN c.cf[d]} : d \in D}
+
+(* ground truth of damage, independent of the model of check/scrub *)
+BlockWrong(c, f, d, n, i) ==
+    LET b == c.cf[d][n].bl[i]
+    IN \/ n \notin DOMAIN f[d]
+       \/ i > Len(f[d][n].b)
+       \/ (i = Len(f[d][n].b) /\ BlkLen(f[d][n].sz, i) < BlkLen(c.cf[d][n].sz, i))
+       \/ (b.st \in {"BLK", "REP"} /\ HashOf(f[d][n].b[i], BlkLen(c.cf[d][n].sz, i)) # b.h)
+TrueDataErrors(c, f) == {<<c.cf[x[1]][x[2]].bl[i].pos, x[1]>> :
+                            <<x, i>> \in {y \in AllFiles(c) \X (1..64) : y[2] <= Len(c.cf[y[1][1]][y[1][2]].bl)
+                                                /\ BlockWrong(c, f, y[1][1], y[1][2], y[2])}}
+ParWrong(c, pr, p, lv) == ~(p + 1 <= Len(pr[lv]) /\ pr[lv][p + 1].k = "V" /\ pr[lv][p + 1].w = StripeVec(c, p))
+DamagePerStripe(c, f, pr, p) ==
+    Cardinality({d \in D : <<p, d>> \in TrueDataErrors(c, f)}) + Cardinality({lv \in Levels : ParWrong(c, pr, p, lv)})
+WithinBounds(c, f, pr) == \A p \in 0..(AllocatedMax(c) - 1) :
+                             (\E d \in D : HasFile(BlockAtSlow(c, d, p))) => DamagePerStripe(c, f, pr, p) <= NP
+
+(* the version of block i of a recorded file that fix must reproduce: the one whose hash is recorded, or for a
+   block without a hash the content the file had when the record was made (ghost) *)
+WantBlock(c, g, d, n, i) == LET b == c.cf[d][n].bl[i]
+                            IN IF b.st \in {"BLK", "REP"} THEN b.h
+                               ELSE IF n \in DOMAIN g[d] /\ i <= Len(g[d][n]) THEN g[d][n][i] ELSE "?"
+
+MtimeCollision(c, d, n) == \E m \in DOMAIN c.cf[d] : m # n /\ c.cf[d][m].sz = c.cf[d][n].sz /\ c.cf[d][m].mt = c.cf[d][n].mt
+
+(* C01: complete recovery *)
+C01_Fix(c, f0, pr0, s, o) ==
+    LET bad == {x \in AllFiles(c) :
+                  \/ x[2] \notin DOMAIN s.fs[x[1]]
+                  \/ s.fs[x[1]][x[2]].sz # c.cf[x[1]][x[2]].sz
+                  \/ Len(s.fs[x[1]][x[2]].b) # Len(c.cf[x[1]][x[2]].bl)
+                  \/ \E i \in 1..Len(c.cf[x[1]][x[2]].bl) : s.fs[x[1]][x[2]].b[i] # c.cf[x[1]][x[2]].bl[i].h
+                  \/ (s.fs[x[1]][x[2]].mt # c.cf[x[1]][x[2]].mt /\ ~MtimeCollision(c, x[1], x[2]))}
+    IN IF bad # {} THEN <<<<"C01", "fix-did-not-restore", bad>>>>
+       ELSE IF Len(o.unrec) # 0 \/ o.exit = "unrecoverable" THEN <<<<"C01", "fix-reported-unrecoverable", o>>>>
+       ELSE <<>>
+
+(* C05: fix never silently leaves or produces wrong data *)
+C05_Sig(c, g, d, n, i, got) ==
+    LET b == c.cf[d][n].bl[i]
+    IN IF b.st = "CHG" /\ IsUnique(b.h) /\ b.h = WantBlock(c, g, d, n, i) THEN "F1-chg-pasthash-is-new-hash"
+       ELSE IF b.st = "CHG" /\ IsUnique(b.h) /\ LenOf(b.h) # BlkLen(c.cf[d][n].sz, i) THEN "F2-chg-pasthash-other-length"
+       ELSE "other"
+C05_Fix(c, g, f0, s, o, selected) ==
+    LET unrec == PairSet(o.unrec)
+        wrong == {y \in AllFiles(c) \X (1..64) :
+                    LET d == y[1][1]
+                        n == y[1][2]
+                        i == y[2]
+                    IN /\ i <= Len(c.cf[d][n].bl)
+                       /\ n \in selected[d]
+                       /\ <<d, n>> \notin unrec
+                       /\ n \in DOMAIN s.fs[d]
+                       /\ i <= Len(s.fs[d][n].b)
+                       /\ s.fs[d][n].b[i] # WantBlock(c, g, d, n, i)
+                       \* a block without a recorded hash that fix found readable and left alone is not detectable damage
+                       /\ ~(c.cf[d][n].bl[i].st = "CHG" /\ n \in DOMAIN f0[d] /\ i <= Len(f0[d][n].b)
+                            /\ (f0[d][n].b[i] = s.fs[d][n].b[i] \/ (f0[d][n].sz > c.cf[d][n].sz /\ IsJunkVal(s.fs[d][n].b[i]))))
+                       \* a block with a hash that was not damaged before stays as it is
+                       /\ ~(c.cf[d][n].bl[i].st # "CHG" /\ FALSE)}
+        touched_unselected == {x \in AllFiles(c) : x[2] \notin selected[x[1]] /\
+                                 ~(IF x[2] \in DOMAIN f0[x[1]] THEN x[2] \in DOMAIN s.fs[x[1]] /\ s.fs[x[1]][x[2]] = f0[x[1]][x[2]]
+                                   ELSE x[2] \notin DOMAIN s.fs[x[1]])}
+    IN (IF wrong # {} THEN LET y == CHOOSE y \in wrong : TRUE
+                           IN <<<<"C05", C05_Sig(c, g, y[1][1], y[1][2], y[2], s.fs[y[1][1]][y[1][2]].b[y[2]]),
+                                  [file |-> y[1], blk |-> y[2], got |-> s.fs[y[1][1]][y[1][2]].b[y[2]],
+                                   want |-> WantBlock(c, g, y[1][1], y[1][2], y[2]), rec |-> c.cf[y[1][1]][y[1][2]].bl[y[2]]]>>>>
+        ELSE <<>>) \o
+       (IF touched_unselected # {} THEN <<<<"C05", "wrote-unselected", touched_unselected>>>> ELSE <<>>)
+
+(* C04: detection and location of silent corruption on an otherwise synced array *)
+C04_Check(c, f, pr, a, o) ==
+    LET tde == TrueDataErrors(c, f)
+        lde == PairSet(o.derr)
+        present == PresentOf(a)
+        cleanstripes == {p \in 0..(AllocatedMax(c) - 1) : (\E d \in D : HasFile(BlockAtSlow(c, d, p)))
+                                                          /\ ~\E d \in D : <<p, d>> \in tde}
+        tpe == {x \in cleanstripes \X present : ParWrong(c, pr, x[1], x[2])}
+        lpe == {x \in PairSet(o.perr) : x[1] \in cleanstripes}
+    IN IF lde # tde THEN <<<<"C04", "check-data-errors", [reported |-> lde, real |-> tde]>>>>
+       ELSE IF ~a.audit /\ lpe # tpe THEN <<<<"C04", "check-parity-errors", [reported |-> lpe, real |-> tpe]>>>>
+       ELSE IF (tde # {} \/ (~a.audit /\ tpe # {})) /\ o.rc = 0 THEN <<<<"C04", "check-exit-ok-with-errors", o>>>>
+       ELSE IF tde = {} /\ (a.audit \/ tpe = {}) /\ PairSet(o.perr) = {} /\ o.rc # 0 THEN <<<<"C04", "check-fails-without-damage", o>>>>
+       ELSE <<>>
+C04_Scrub(c, f, pr, a, s, o) ==
+    LET sel == PlanSel(c, a.plan)
+        tde == {x \in TrueDataErrors(c, f) : x[1] \in sel}
+        lde == PairSet(o.derr)
+        cleanstripes == {p \in sel : ~\E d \in D : <<p, d>> \in tde}
+        tpe == {x \in cleanstripes \X Levels : ParWrong(c, pr, x[1], x[2])}
+        lpe == PairSet(o.perr)
+        affected == {x[1] : x \in tde \cup tpe}
+        marked == {p \in 0..(Len(s.info) - 1) : s.info[p + 1].p /\ s.info[p + 1].bad}
+        before == {p \in 0..(Len(c.info) - 1) : c.info[p + 1].p /\ c.info[p + 1].bad}
+    IN IF lde # tde THEN <<<<"C04", "scrub-data-errors", [reported |-> lde, real |-> tde]>>>>
+       ELSE IF lpe # tpe THEN <<<<"C04", "scrub-parity-errors", [reported |-> lpe, real |-> tpe]>>>>
+       ELSE IF marked # (before \ sel) \cup affected THEN <<<<"C04", "scrub-marks", [marked |-> marked, expected |-> (before \ sel) \cup affected]>>>>
+       ELSE IF (affected # {}) # (o.rc # 0) THEN <<<<"C04", "scrub-exit", o>>>>
+       ELSE <<>>
+
+(* C12: frames, on byte-level digests of the three kinds of files *)
+C12_Frame(cmd, s) ==
+    LET keepF == cmd \in {"Check", "Diff", "Scrub", "Sync"}
+        keepP == cmd \in {"Check", "Diff", "Scrub"}
+        keepC == cmd \in {"Check", "Diff", "Fix"}
+    IN (IF keepF /\ s.sha.f # sha.f THEN <<<<"C12", cmd \o "-changed-data", <<sha.f, s.sha.f>>>>>> ELSE <<>>) \o
+       (IF keepP /\ s.sha.p # sha.p THEN <<<<"C12", cmd \o "-changed-parity", <<sha.p, s.sha.p>>>>>> ELSE <<>>) \o
+       (IF keepC /\ s.sha.c # sha.c THEN <<<<"C12", cmd \o "-changed-content", <<sha.c, s.sha.c>>>>>> ELSE <<>>) \o
+       (IF s.sha.x # sha.x THEN <<<<"C12", cmd \o "-extra-artefacts", <<sha.x, s.sha.x>>>>>> ELSE <<>>)
+
 Init ==
     /\ l = 2
     /\ fs = Hdr.state.fs
@@ -76,6 +194,10 @@ Init ==
     /\ clean = FALSE
     /\ snap = Hdr.state.fs
     /\ dmg = FALSE
+    /\ ghost = [d \in D |-> <<>>]
+    /\ sha = Hdr.state.sha
+    /\ pviol = <<>>
+    /\ afterfix = FALSE
 
 Ev == TraceLog[l]
 IsEvent(e) == l <= Len(TraceLog) /\ TraceLog[l].e = e
@@ -85,15 +207,20 @@ Follow(s, predpar) ==
     /\ fs' = s.fs
     /\ C' = LoggedC(s)
     /\ par' = ParMerge(predpar, s)
+    /\ sha' = s.sha
+
+GhostKeep(c) == [d \in D |-> [n \in DOMAIN c.cf[d] \cap DOMAIN ghost[d] |-> ghost[d][n]]]
 
 (* environment: user edits, corruption, loss.  Content files are not touched by these events. *)
 EnvStep ==
     /\ IsEvent("Env")
     /\ Follow(Ev.state, par)
     /\ diag' = IF LoggedC(Ev.state) = C THEN <<>> ELSE <<"Env changed content", l>>
-    /\ clean' = FALSE
+    /\ clean' = (clean /\ Ev.dmg)
     /\ dmg' = (dmg \/ Ev.dmg)
-    /\ UNCHANGED snap
+    /\ pviol' = <<>>
+    /\ afterfix' = FALSE
+    /\ UNCHANGED <<snap, ghost>>
 
 SrcsOf(a) == a.srcs
 
@@ -107,17 +234,23 @@ SyncStep ==
            okO == IF r.out.exit \in {"refused", "abort"} THEN Ev.out.exit = "stopped"
                   ELSE r.out.exit = Ev.out.exit /\ r.out.err = Ev.out.err /\ r.out.silent = Ev.out.silent
            okF == Ev.state.fs = fs1
+           L0 == ClearPast(C)
+           newc == LoggedC(Ev.state)
        IN /\ Follow(Ev.state, r.par)
           /\ diag' = IF okC /\ okP /\ okO /\ okF THEN <<>>
                      ELSE <<"Sync", l, [okC |-> okC, okP |-> okP, okO |-> okO, okF |-> okF],
-                            IF ~okC THEN DiffC(r.C, LoggedC(Ev.state)) ELSE <<>>, IF ~okP THEN r.par ELSE <<>>, r.out>>
-          /\ clean' = (Ev.out.exit = "ok" /\ CleanSynced(LoggedC(Ev.state), Ev.state.fs))
+                            IF ~okC THEN DiffC(r.C, LoggedC(Ev.state)) ELSE <<>>, IF ~okP THEN r.par ELSE <<>>, r.out, Ev.out>>
+          /\ clean' = (Ev.out.exit = "ok" /\ CleanSynced(newc, Ev.state.fs) /\ (~dmg \/ a.opts.force_full))
           /\ snap' = IF Ev.out.exit = "ok" THEN Ev.state.fs ELSE snap
-          /\ UNCHANGED dmg
+          /\ dmg' = (dmg /\ ~(Ev.out.exit = "ok" /\ a.opts.force_full))
+          \* the content of a file at the scan that (re)created its record
+          /\ ghost' = [d \in D |-> [n \in DOMAIN newc.cf[d] |->
+                          IF n \in Fresh(L0, fs, d) /\ n \in DOMAIN fs[d] THEN fs[d][n].b
+                          ELSE IF n \in DOMAIN ghost[d] THEN ghost[d][n] ELSE <<>>]]
+          /\ pviol' = IF "fs1" \in DOMAIN Ev THEN <<>> ELSE C12_Frame("Sync", Ev.state)
+          /\ afterfix' = FALSE
 
-PresentOf(a) == ToSet(a.present)
 SelOf(a) == [d \in D |-> ToSet(a.sel[d])]
-PairSet(s) == {<<s[i][1], s[i][2]>> : i \in 1..Len(s)}
 
 CheckStep ==
     /\ IsEvent("Check")
@@ -127,7 +260,11 @@ CheckStep ==
            okS == LoggedC(Ev.state) = C /\ Ev.state.fs = fs /\ ParAgrees(par, Ev.state)
        IN /\ Follow(Ev.state, par)
           /\ diag' = IF okO /\ okS THEN <<>> ELSE <<"Check", l, [okO |-> okO, okS |-> okS], r, Ev.out>>
-          /\ UNCHANGED <<clean, snap, dmg>>
+          /\ pviol' = C12_Frame("Check", Ev.state) \o
+                      (IF ~ParityInvalid(C) /\ NoDifference(C, fs) /\ \A lv \in PresentOf(a) : Len(par[lv]) >= AllocatedMax(C)
+                       THEN C04_Check(C, fs, par, a, Ev.out) ELSE <<>>) \o
+                      (IF afterfix /\ Ev.out.rc # 0 THEN <<<<"C01", "check-after-fix-finds-errors", Ev.out>>>> ELSE <<>>)
+          /\ UNCHANGED <<clean, snap, dmg, ghost, afterfix>>
 
 FixStep ==
     /\ IsEvent("Fix")
@@ -139,11 +276,15 @@ FixStep ==
            okO == /\ r.out.exit = Ev.out.exit
                   /\ r.out.unrec = PairSet(Ev.out.unrec)
                   /\ r.out.recovered = PairSet(Ev.out.recovered)
+           c01 == clean /\ WithinBounds(C, fs, par)
        IN /\ Follow(Ev.state, r.par)
           /\ diag' = IF okF /\ okP /\ okC /\ okO THEN <<>>
                      ELSE <<"Fix", l, [okF |-> okF, okP |-> okP, okC |-> okC, okO |-> okO],
                             IF ~okF THEN r.fs ELSE <<>>, IF ~okP THEN r.par ELSE <<>>, r.out, Ev.out>>
-          /\ UNCHANGED <<clean, snap, dmg>>
+          /\ pviol' = C12_Frame("Fix", Ev.state) \o C05_Fix(C, ghost, fs, Ev.state, Ev.out, SelOf(a)) \o
+                      (IF c01 THEN C01_Fix(C, fs, par, Ev.state, Ev.out) ELSE <<>>)
+          /\ afterfix' = c01
+          /\ UNCHANGED <<clean, snap, dmg, ghost>>
 
 ScrubStep ==
     /\ IsEvent("Scrub")
@@ -154,7 +295,11 @@ ScrubStep ==
            okO == r.out.exit = Ev.out.exit /\ r.out.derr = PairSet(Ev.out.derr) /\ r.out.perr = PairSet(Ev.out.perr)
        IN /\ Follow(Ev.state, par)
           /\ diag' = IF okC /\ okS /\ okO THEN <<>> ELSE <<"Scrub", l, [okC |-> okC, okS |-> okS, okO |-> okO], IF ~okC THEN DiffC(r.C, LoggedC(Ev.state)) ELSE <<>>, r.out, Ev.out>>
-          /\ UNCHANGED <<clean, snap, dmg>>
+          /\ pviol' = C12_Frame("Scrub", Ev.state) \o
+                      (IF ~ParityInvalid(C) /\ NoDifference(C, fs) /\ PresentOf(a) = Levels /\ Ev.out.exit # "none"
+                          /\ \A lv \in Levels : Len(par[lv]) >= AllocatedMax(C)
+                       THEN C04_Scrub(C, fs, par, a, Ev.state, Ev.out) ELSE <<>>)
+          /\ UNCHANGED <<clean, snap, dmg, ghost, afterfix>>
 
 DiffStep ==
     /\ IsEvent("Diff")
@@ -162,7 +307,8 @@ DiffStep ==
            okS == LoggedC(Ev.state) = C /\ Ev.state.fs = fs /\ ParAgrees(par, Ev.state)
        IN /\ Follow(Ev.state, par)
           /\ diag' = IF r.exit = Ev.out.exit /\ okS THEN <<>> ELSE <<"Diff", l, r, okS>>
-          /\ UNCHANGED <<clean, snap, dmg>>
+          /\ pviol' = C12_Frame("Diff", Ev.state)
+          /\ UNCHANGED <<clean, snap, dmg, ghost, afterfix>>
 
 (* a new execution in the same file (same D, NP) *)
 ResetStep ==
@@ -171,16 +317,21 @@ ResetStep ==
     /\ fs' = Ev.state.fs
     /\ C' = LoggedC(Ev.state)
     /\ par' = LoggedPar(Ev.state, [lv \in Levels |-> <<>>])
+    /\ sha' = Ev.state.sha
     /\ diag' = <<>>
     /\ clean' = FALSE
     /\ snap' = Ev.state.fs
     /\ dmg' = FALSE
+    /\ ghost' = [d \in D |-> <<>>]
+    /\ pviol' = <<>>
+    /\ afterfix' = FALSE
 
 Next == EnvStep \/ SyncStep \/ CheckStep \/ FixStep \/ ScrubStep \/ DiffStep \/ ResetStep
 Spec == Init /\ [][Next]_vars
 
 (* ---- what TLC checks ---- *)
 Conforms == diag = <<>>
+NoPropertyViolation == pviol = <<>>
 C06_ParityValid == dmg \/ ParityValid(C, par)
 C06_MapSane == MapSane(C)
 Accepted == TLCGet("stats").diameter = Len(TraceLog)
